@@ -107,8 +107,9 @@ impl Writeable for SlateOptFields {
 		if self.amt > 0 {
 			status |= 0x02;
 		}
-		if self.fee.fee() > 0 {
-			// apply fee mask past HF4
+		// (the whole field, as the JSON form does: a value whose low 40 bits - the fee proper -
+		// are zero still has its shift bits)
+		if !self.fee.is_zero() {
 			status |= 0x04;
 		}
 		if self.feat > 0 {
